@@ -71,8 +71,16 @@ pub open spec fn segs_wired(p: &Partition) -> bool {
     forall|i: int| 0 <= i < p.segments@.len() ==> seg_wired(#[trigger] &p.segments@[i], p)
 }
 
-impl MaxTopicSize {
-    #[verifier::external_body] pub fn as_bytes_u64(&self) -> (r: u64) { unimplemented!() }
+// C15: what Topic::get_max_topic_size must resolve a requested limit to (from the property statement: the server default
+// stands for the configured limit; a limit smaller than one segment is rejected; anything else is kept as requested)
+pub open spec fn limit_bytes(m: MaxTopicSize) -> u64 {
+    match m { MaxTopicSize::Custom(b) => b, MaxTopicSize::Unlimited => u64::MAX, MaxTopicSize::ServerDefault => 0 }
+}
+pub open spec fn limit_rejected(m: MaxTopicSize, c: &SystemConfig) -> bool {
+    m is Custom && limit_bytes(m) < c.segment.size
+}
+pub open spec fn limit_resolved(m: MaxTopicSize, c: &SystemConfig) -> MaxTopicSize {
+    if m is ServerDefault { c.topic.max_size } else { m }
 }
 impl Default for CompressionAlgorithm {
     #[verifier::external_body] fn default() -> (r: Self) { unimplemented!() }
